@@ -21,6 +21,10 @@ func main() {
 	verbose = flag.Bool("v", false, "")
 	flag.IntVar(&level, "l", 0, "")
 	flag.Parse()
+	roots := make(chan *ast.Root)
+	for i := 0; i < 2; i++ {
+		go printAll(roots) // bad (single-consumer): two goroutines write results to the one output
+	}
 	in <- 1
 }
 
